@@ -59,7 +59,7 @@ func runC15(c Case, st *Stats) error {
 	defer recB.Stop()
 	faultsFired := 0
 	u := UniverseOf(c)
-	oo := obsFor(c.Cfg)
+	oo := obsForCase(c, st)
 	merges, effective, twice, writeAfter, reopenAfterWrite := 0, 0, 0, false, false
 	lastWasMerge := false
 	compare := func(i int, what string) error {
